@@ -13,7 +13,9 @@ documented sites.
 -/
 import DaskArrayModel.Lemmas.Names
 import DaskArrayModel.Generated.NameTables
+import DaskArrayModel.Lemmas.KernelDecide
 namespace Dask.Props.C07
+open Dask.KernelDecide
 open Dask.Names Dask.Lemmas.Names
 open Dask.Generated.NameTables
 
@@ -58,7 +60,7 @@ def derivedCaches : List String := ["_lowered_expr", "_cached_dask_keys"]
 theorem C07_pickle_protocol :
     reduceDropsToken = [] ∧ reconstructPassesToken = true ∧
     (∀ k, k ∈ getstateDropped → k ∈ derivedCaches) ∧ ¬ ("_expr" ∈ getstateDropped) := by
-  decide +kernel
+  kernel_decide
 
 /-- Every place where naming code can read something that is not a function of the operands (see
     harness/translate/names.py), with why it is acceptable.  Anything else breaks this theorem. -/
@@ -94,7 +96,7 @@ def documentedExceptions : List String := [
 ]
 
 theorem C07_unstable_sites : ∀ s, s ∈ unstableSites → s ∈ documentedExceptions := by
-  decide +kernel
+  kernel_decide
 
 /-! ### non-vacuity and witnesses -/
 
@@ -129,6 +131,6 @@ example :
   · intro k h; injection h with h; exact h.symm
 
 /-- the site table is not empty (the scan sees the documented fallbacks) -/
-example : unstableSites.length > 0 ∧ reduceOwners.contains "ArrayExpr" = true := by decide +kernel
+example : unstableSites.length > 0 ∧ reduceOwners.contains "ArrayExpr" = true := by kernel_decide
 
 end Dask.Props.C07
